@@ -209,7 +209,8 @@ Fixpoint no_dup_singletons (seen : list bytes) (names : list bytes) : bool :=
   | n :: t => negb (existsb (fun k => ieqb k n) seen && is_singleton n) && no_dup_singletons (seen ++ [n]) t
   end.
 
-Definition dec_numeral (v : bytes) (n : N) : bool := nonempty v && forallb dec_digit v && (parse_dec v =? n).
+Definition dec_numeral (v : bytes) (n : N) : bool :=
+  nonempty v && forallb dec_digit v && (lenN v <=? int_max_str_digits) && (parse_dec v =? n).
 
 Definition framing_ok (r : creq) : bool :=
   let hs := wire_headers r in
